@@ -3,7 +3,10 @@ Tie 1 (in-process): selection.SelectTargetsForBuild / SelectTargets on real mode
 model.Alias nodes and the real dag graph vs Select.select_for_build / select_targets.
 Tie 2 (CLI): `grog build|test <flags> <patterns>` on rendered BUILD.json workspaces with a clean
 cache; every command appends its label to a trace file.
-Oracle (on the implementation's answer): closure by BFS of the roots the property text defines."""
+Oracle (on the implementation's answer): closure by BFS of the roots the property text defines (a node
+matched by the pattern whose target -- an alias stands for the target it resolves to -- passes the tag /
+exclude-tag / type / platform filters).  Since the repair of C12-F1 the model follows the same rule
+(C12_roots_are_spec_roots), so implementation, model and oracle must agree on every case."""
 import json, os, re
 from concurrent.futures import ThreadPoolExecutor
 import vlib
@@ -36,7 +39,8 @@ def judge(nodes, cfg, got, findings):
     def targets(x):
         # the property speaks about the targets whose commands run; alias nodes have no command
         return {i for i in x if nodes[i]["kind"] == "t"}
-    same = (got[0] == want[0]) and (got[0] != "sel" or targets(got[1]) == targets(want[1]))
+    # the whole node set (aliases are nodes of the closure), not only the targets
+    same = (got[0] == want[0]) and (got[0] != "sel" or got[1] == want[1])
     if same:
         if got[0] == "sel":
             ntargets = sum(1 for i in got[1] if nodes[i]["kind"] == "t")
@@ -124,8 +128,15 @@ def inprocess(out, cases, findings, stats):
     rc, model, err = vlib.run_lines(drv, lines)
     if rc != 0 or len(model) != len(lines):
         raise RuntimeError("select model driver failed rc=%s %d/%d %s" % (rc, len(model), len(lines), err[-400:]))
-    # second model variant: the repaired selection (roots of the property's reading, C12_repaired_selection_is_closure)
+    # model self-check: the code's selection is the traversal from the roots of the property's reading (C12_selection_equals_spec_selection)
     _, spec, _ = vlib.run_lines(drv, ["selectspec\t%s\t%s" % (sl.enc_nodes(nd), sl.enc_cfg(cf)) for nd, cf in cases])
+    bad = [k for k in range(len(cases)) if len(spec) != len(cases) or model[2 * k].split("\t")[:3] != spec[k].split("\t")[:3]]
+    stats["model_selfcheck_failed"] = len(bad)
+    if bad:
+        k = bad[0]
+        out.violation("model: Select.select_for_build gives %s, Select.select_for_build_spec %s (contradicts C12_selection_equals_spec_selection)" % (
+            model[2 * k], spec[k] if k < len(spec) else "<missing>"),
+            dict(case_json(*cases[k]), theorem="C12_selection_equals_spec_selection"), no_input=True)
     try:
         h = vlib.build_harness("select")
     except vlib.HarnessUnavailable as e:
@@ -143,23 +154,13 @@ def inprocess(out, cases, findings, stats):
     for k, (nodes, cfg) in enumerate(cases):
         a_sel, a_list = impl[2 * k], impl[2 * k + 1]
         got = parse_sel(a_sel)
-        if a_sel == model[2 * k] and a_list == model[2 * k + 1]:
-            if model[2 * k].split("\t")[:2] != spec[k].split("\t")[:2]:
-                stats["variant_code_roots"] = stats.get("variant_code_roots", 0) + 1
-        else:
-            # the code follows ONE of the two variants: compare with the repaired one on the error class / selected targets
-            def tproj(x):
-                return x[0] if x[0] != "sel" else frozenset(i for i in x[1] if nodes[i]["kind"] == "t")
-            ms = spec[k].split("\t")
-            sp = ("sel", set(sl.idxs(ms[1]))) if ms[0] == "sel" else (ms[0],)
-            byp = set(sl.ref_roots(nodes, cfg)[1])
-            ml, il = model[2 * k + 1].split("\t"), a_list.split("\t")
-            mlist = set(sl.idxs(ml[1])) if len(ml) > 1 else set()
-            ilist = set(sl.idxs(il[1])) if il[0] == "list" and len(il) > 1 else None
-            list_ok = ilist is not None and ilist <= mlist and (mlist - ilist) <= byp
-            if got[0] in ("sel", "platform-error") and tproj(got) == tproj(sp) and list_ok:
-                stats["variant_repaired"] = stats.get("variant_repaired", 0) + 1
-            else:
+        byp = set(sl.ref_roots(nodes, cfg)[1])
+        if byp:    # inputs on which the rule for aliases matters (C12-F1): a matched alias stands for a target that fails the filters
+            stats["inputs_with_filtered_alias"] = stats.get("inputs_with_filtered_alias", 0) + 1
+        if a_sel != model[2 * k] or a_list != model[2 * k + 1]:
+            # a listed finding of the alias class explains a difference on an input that has a matched alias whose
+            # target fails the filters (only relevant on a tree without the repair of C12-F1)
+            if not (byp and findings.get(ALIAS_CLASS)):
                 mism.append(k)
         verdict, text, extra = judge(nodes, cfg, got, findings)
         stats[got[0]] = stats.get(got[0], 0) + 1
@@ -173,17 +174,19 @@ def inprocess(out, cases, findings, stats):
         elif verdict == "violation" and viol < 3:
             viol += 1
             out.violation(text, dict(case_json(nodes, cfg), impl=a_sel, model=model[2 * k], tie="in-process"))
-        # list = pattern and filter matches, no closure (SelectTargets): targets strictly, aliases by pattern
-        want_t = {i for i, nd in enumerate(nodes) if nd["kind"] == "t" and sl.ref_pattern_ok(cfg, nd)
-                  and sl.ref_target_filters(cfg, nd) and sl.ref_platform_ok(cfg, nd)}
+        # list = pattern and filter matches, no closure (SelectTargets); an alias is filtered like the target it stands for
+        want_l = {i for i, nd in enumerate(nodes) if sl.ref_pattern_ok(cfg, nd) and sl.ref_query_filter(cfg, nodes, i)[0]}
         gl = a_list.split("\t")
         got_l = set(sl.idxs(gl[1])) if gl[0] == "list" and len(gl) > 1 else set()
-        got_t = {i for i in got_l if nodes[i]["kind"] == "t"}
-        if gl[0] != "list" or got_t != want_t or any(not sl.ref_pattern_ok(cfg, nodes[i]) for i in got_l):
-            if viol < 3:
+        if gl[0] != "list" or got_l != want_l:
+            f = findings.get(ALIAS_CLASS)
+            if gl[0] == "list" and f and want_l <= got_l and (got_l - want_l) <= byp:
+                out.known(f["id"], "class=%s query selection (list) marks alias %s although the target it stands for is filtered out (%s)" % (
+                    ALIAS_CLASS, sl.label_of(nodes[sorted(got_l - want_l)[0]]), filt_desc(cfg)))
+            elif viol < 3:
                 viol += 1
-                out.violation("query selection (list) marks %s, the pattern and filter matches among the targets are %s" % (
-                    sorted(sl.label_of(nodes[i]) for i in got_l), sorted(sl.label_of(nodes[i]) for i in want_t)),
+                out.violation("query selection (list) marks %s, the pattern matches whose target passes the filters are %s" % (
+                    sorted(sl.label_of(nodes[i]) for i in got_l), sorted(sl.label_of(nodes[i]) for i in want_l)),
                     dict(case_json(nodes, cfg), impl=a_list, model=model[2 * k + 1], tie="in-process", cmd="list"))
     if mism and not out.violations:
         k = mism[0]
@@ -219,12 +222,17 @@ def e2e(out, r, tier, findings, stats):
         return {"available": False}
     n = 48 if tier == "quick" else 400
     cases = []
-    # the refutation witness of C12_selection_is_closure first
+    # the former refutation witnesses first (C12_alias_root_filtered, C12_alias_followed_as_dependency, C12_alias_platform_skipped)
     wit = [{"kind": "t", "pkg": "", "name": "plain", "tags": [], "plats": [], "bin": False, "deps": [], "inputs": []},
            {"kind": "a", "pkg": "", "name": "al", "tags": [], "plats": [], "bin": False, "deps": [0], "inputs": []},
            {"kind": "t", "pkg": "", "name": "tagged", "tags": ["x"], "plats": [], "bin": False, "deps": [], "inputs": []}]
     wcfg = {"cur": "", "pats": ["//..."], "tags": ["x"], "excl": [], "type": "no_test", "plat": "linux/amd64", "all": False}
     cases.append((wit, rebuild_cfg(wit, wcfg), "build"))
+    wit_dep = [dict(nd) for nd in wit]
+    wit_dep[2]["deps"] = [1]
+    cases.append((wit_dep, rebuild_cfg(wit_dep, wcfg), "build"))
+    wit_plat = [dict(wit[2], tags=[], plats=["windows/amd64"]), dict(wit[1]), dict(wit[0])]
+    cases.append((wit_plat, rebuild_cfg(wit_plat, dict(wcfg, tags=[])), "build"))
     while len(cases) < n:
         nodes = sl.gen_world(r, nmax=9, constraints=True, bins=False)
         cmd = r.choice(["build", "build", "test"])
@@ -237,12 +245,11 @@ def e2e(out, r, tier, findings, stats):
     os.makedirs(base, exist_ok=True)
     drv = vlib.build_driver("select")
     _, model, _ = vlib.run_lines(drv, ["select\t%s\t%s" % (sl.enc_nodes(nd), sl.enc_cfg(cf)) for nd, cf, _ in cases])
-    _, mspec, _ = vlib.run_lines(drv, ["selectspec\t%s\t%s" % (sl.enc_nodes(nd), sl.enc_cfg(cf)) for nd, cf, _ in cases])
     with ThreadPoolExecutor(max_workers=32) as ex:
         results = list(ex.map(lambda a: run_e2e_case(grog, base, a[0], a[1][0], a[1][1], a[1][2]), enumerate(cases)))
     bad = 0
     kinds = {"built": 0, "platform-error": 0, "nothing-selected": 0, "known": 0}
-    for (nodes, cfg, cmd), res, m, msp in zip(cases, results, model, mspec):
+    for (nodes, cfg, cmd), res, m in zip(cases, results, model):
         lab = {sl.label_of(nd): i for i, nd in enumerate(nodes)}
         o = res["out"]
         rp = dict(case_json(nodes, cfg), cmd="grog " + " ".join(res["args"]), cwd_package=cfg["cur"], exit=res["exit"],
@@ -277,6 +284,7 @@ def e2e(out, r, tier, findings, stats):
             out.violation("'Selected %d targets' but %d commands ran on a clean cache" % (got[2], len(got[1])), rp)
             bad += 1
             continue
+        explained = False
         if g == proj(want):
             kinds["platform-error" if g[0] == "platform-error" else ("built" if g[1] else "nothing-selected")] += 1
         else:
@@ -284,6 +292,7 @@ def e2e(out, r, tier, findings, stats):
             f = findings.get(ALIAS_CLASS)
             if bypass and g == proj(code_rule) and f:
                 kinds["known"] += 1
+                explained = True      # a listed finding (tree without the repair of C12-F1): the model follows the repaired rule
                 al, tg = nodes[bypass[0]], nodes[sl.resolve(nodes, bypass[0])]
                 if g[0] == "targets":
                     extra = sorted(sl.label_of(nodes[i]) for i in g[1] - proj(want)[1]) if want[0] == "sel" else sorted(res["trace"])
@@ -308,9 +317,7 @@ def e2e(out, r, tier, findings, stats):
             f = line.split("\t")
             return ("platform-error",) if f[0] == "platform-error" else ("targets", frozenset(i for i in sl.idxs(f[1]) if nodes[i]["kind"] == "t"))
         pmj = mproj(m)
-        if pmj != g and mproj(msp) == g:
-            stats["e2e_variant_repaired"] = stats.get("e2e_variant_repaired", 0) + 1
-        elif pmj != g and not out.violations:
+        if pmj != g and not explained and not out.violations:
             out.violation("correspondence Select.select_for_build ~ grog %s broke: model %s, executed %s" % (cmd, m, res["trace"]),
                           dict(rp, correspondence="Select.v vs grog build/test trace"), no_input=True)
     stats["e2e"] = kinds
